@@ -32,6 +32,9 @@ type Config struct {
 	Stop   func() bool
 	// MaxStates caps the number of distinct states expanded (0 = none).
 	MaxStates int
+	// ReplayNames, if set, makes BFS execute exactly this call sequence (by call names) instead of searching:
+	// the prefix is replayed on a fresh engine and the last call runs between Before and After.
+	ReplayNames []string
 }
 
 // Stats reports what a search covered.
@@ -65,6 +68,9 @@ func BFS(cfg Config) *Stats {
 	}
 	if cfg.Key == nil {
 		cfg.Key = func(w *world.World) string { return w.Key() }
+	}
+	if len(cfg.ReplayNames) > 0 {
+		return replayOnly(cfg)
 	}
 	st := &Stats{Exhaustive: true}
 	seen := map[[32]byte]bool{}
@@ -243,4 +249,40 @@ func PathsFrom(fixed []int, nActions, depth int, newRunner func() Runner, stop f
 		ps.Exhaustive = false
 	}
 	return ps
+}
+
+// replayOnly executes one recorded call sequence.
+func replayOnly(cfg Config) *Stats {
+	st := &Stats{Exhaustive: false}
+	var path []int
+	for _, n := range cfg.ReplayNames {
+		found := -1
+		for i, c := range cfg.Alphabet {
+			if c.Name == n {
+				found = i
+				break
+			}
+		}
+		if found < 0 {
+			return st // the sequence does not belong to this alphabet (e.g. another part of the check)
+		}
+		path = append(path, found)
+	}
+	w := cfg.New()
+	defer w.Close()
+	for _, c := range path[:len(path)-1] {
+		cfg.Alphabet[c].Do(w)
+	}
+	var pre interface{}
+	if cfg.Before != nil {
+		pre = cfg.Before(w, path)
+	}
+	obs := cfg.Alphabet[path[len(path)-1]].Do(w)
+	if cfg.After != nil {
+		cfg.After(w, path, pre, obs)
+	}
+	st.States, st.Transitions, st.MaxDepth = 1, 1, len(path)
+	st.ReplayCalls = int64(len(path) - 1)
+	st.Shortest = [][]string{cfg.ReplayNames}
+	return st
 }
